@@ -25,6 +25,12 @@ template <int K> struct probe_t {
 constexpr inline auto p1 = fn::functor_t{fn::unary_fmap_t<probe_t<1>>{}};
 constexpr inline auto p2 = fn::functor_t{fn::binary_fmap_t<probe_t<2>>{}};
 constexpr inline auto p3 = fn::functor_t{fn::ternary_fmap_t<probe_t<3>>{}};
+constexpr inline auto p4 = fn::functor_t{fn::quaternary_fmap_t<probe_t<4>>{}};
+constexpr inline auto p5 = fn::functor_t{fn::quinary_fmap_t<probe_t<5>>{}};
+// compositions built once and multiplied as blocks
+constexpr inline auto blk21 = p2*p1;
+constexpr inline auto blk2s = p2*cb::swap;
+constexpr inline auto blkd1 = cb::dup*p1;
 
 template <typename T> struct is_fn : std::false_type {};
 template <typename F, typename O, typename A> struct is_fn<fn::functor_t<F,O,A>> : std::true_type {};
@@ -60,11 +66,15 @@ template <int MAXOPS, int MAXATTR, typename F> std::string go(const F& f, const 
 }
 #define ENTRY(name, expr) if (comp == name) { MEMO.clear(); TERMS.clear(); return "ok " + go<5,0>(expr, steps, 0); }
 #define ENTRYA(name, expr) if (comp == name) { MEMO.clear(); TERMS.clear(); return "ok " + go<5,2>(expr, steps, 0); }
+#ifndef C14_PROBE_GROUP
+#error "C14_PROBE_GROUP not set"
+#endif
 std::string handle(const std::string& op, const Args& a) {
     if (op != "c14_probe") return "unknown-op";
     auto comp = get(a,"comp");
     std::vector<step_t> steps;
     for (auto& s : split(get(a,"steps"),';')) { step_t st; st.attr = s[0]=='a'; st.v = std::vector<int>(); for (auto x: parse_ints(s.substr(2))) st.v.push_back((int)x); steps.push_back(st); }
+#if C14_PROBE_GROUP == 1
     // single functors / combinators
     ENTRYA("p1", p1) ENTRYA("p2", p2) ENTRYA("p3", p3)
     ENTRY("swap", cb::swap) ENTRY("dup", cb::dup) ENTRY("dig1", cb::dig1) ENTRY("dig2", cb::dig2) ENTRY("bury1", cb::bury1) ENTRY("bury2", cb::bury2)
@@ -80,11 +90,28 @@ std::string handle(const std::string& op, const Args& a) {
     ENTRY("M(M(p2,p2),dup)", (p2*p2)*cb::dup) ENTRY("M(p2,M(p2,dup))", p2*(p2*cb::dup))
     ENTRY("M(M(p3,bury2),p1)", (p3*cb::bury2)*p1) ENTRY("M(p3,M(bury2,p1))", p3*(cb::bury2*p1))
     ENTRY("M(M(p2,p3),p2)", (p2*p3)*p2) ENTRY("M(p2,M(p3,p2))", p2*(p3*p2))
+#elif C14_PROBE_GROUP == 2
     // 4 functors, every parenthesisation of one chain, and more chains
     ENTRY("M(M(p2,p2),M(p1,bury2))", (p2*p2)*(p1*cb::bury2)) ENTRY("M(p2,M(p2,M(p1,bury2)))", p2*(p2*(p1*cb::bury2)))
     ENTRY("M(M(M(p2,p2),p1),bury2)", ((p2*p2)*p1)*cb::bury2) ENTRY("M(M(p2,M(p2,p1)),bury2)", (p2*(p2*p1))*cb::bury2) ENTRY("M(p2,M(M(p2,p1),bury2))", p2*((p2*p1)*cb::bury2))
     ENTRY("M(M(p1,p2),M(swap,dup))", (p1*p2)*(cb::swap*cb::dup)) ENTRY("M(p1,M(p2,M(swap,dup)))", p1*(p2*(cb::swap*cb::dup)))
     ENTRY("M(M(p2,p1),M(p2,dig2))", (p2*p1)*(p2*cb::dig2)) ENTRY("M(M(M(p2,p1),p2),dig2)", ((p2*p1)*p2)*cb::dig2)
     ENTRY("M(M(p3,p1),M(p2,p2))", (p3*p1)*(p2*p2)) ENTRY("M(p3,M(p1,M(p2,p2)))", p3*(p1*(p2*p2)))
+#elif C14_PROBE_GROUP == 3
+    // arity 4 and 5 (every curry split), binary / unary functors fed by them and feeding them
+    ENTRYA("p4", p4) ENTRYA("p5", p5)
+    ENTRY("M(p4,p2)", p4*p2) ENTRY("M(p2,p4)", p2*p4) ENTRY("M(p1,p5)", p1*p5) ENTRY("M(p5,dup)", p5*cb::dup) ENTRY("M(p4,dig2)", p4*cb::dig2)
+    // combinators left-most, in the middle, right-most
+    ENTRY("M(swap,p2)", cb::swap*p2) ENTRY("M(dig2,p1)", cb::dig2*p1) ENTRY("M(bury2,p2)", cb::bury2*p2) ENTRY("M(dup,dup)", cb::dup*cb::dup)
+    ENTRY("M(p2,M(dup,p1))", p2*(cb::dup*p1)) ENTRY("M(M(p2,dup),p1)", (p2*cb::dup)*p1)
+    ENTRY("M(p3,M(dig2,p3))", p3*(cb::dig2*p3)) ENTRY("M(M(p3,dig2),p3)", (p3*cb::dig2)*p3)
+    ENTRY("M(M(swap,p2),swap)", (cb::swap*p2)*cb::swap) ENTRY("M(swap,M(p2,swap))", cb::swap*(p2*cb::swap))
+#elif C14_PROBE_GROUP == 4
+    // prebuilt blocks: a composition object built once, multiplied with itself / other blocks / functors on either side
+    ENTRY("M(M(p2,p1),M(p2,p1))", blk21*blk21) ENTRY("M(M(p2,swap),M(p2,p1))", blk2s*blk21) ENTRY("M(M(p2,p1),M(p2,swap))", blk21*blk2s)
+    ENTRY("M(M(dup,p1),M(p2,p1))", blkd1*blk21) ENTRY("M(M(p2,p1),M(dup,p1))", blk21*blkd1)
+    ENTRY("M(p1,M(p2,p1))", p1*blk21) ENTRY("M(M(p2,p1),p3)", blk21*p3)
+    ENTRY("M(M(M(p2,p1),M(p2,p1)),M(p2,swap))", (blk21*blk21)*blk2s) ENTRY("M(M(p2,p1),M(M(p2,p1),M(p2,swap)))", blk21*(blk21*blk2s))
+#endif
     return "unknown-comp";
 }
